@@ -2,6 +2,7 @@ import Treepath.Spec.Has
 import Treepath.Model.Fns
 import Treepath.Proofs.EvalLemmas
 import Treepath.Proofs.HasRefine
+import Treepath.Proofs.HasRefineX
 import Treepath.Proofs.Work
 import Treepath.Proofs.Budget
 /- C04 — has, has_all, has_any, has_not: existential tests and boolean algebra -/
@@ -95,6 +96,15 @@ theorem machine_has_is_definition (ss : List (Step J)) (hq : Quiet ss) (hp : Pre
     (op : Option Fn) (fns : List Fn) (c : MNode J) :
     IsInfra (has cxJ ss op fns c).res ∨ (has cxJ ss op fns c).res = (hasS ss op fns c).res :=
   has_refines cxJ rfl rfl ss hq hp op fns c
+
+/-- … **whatever the predicates inside the has-path do** (no premise on what they return:
+they may raise on any candidate): value or exception, the library's `has` returns what the
+definition's first-success search returns — an exception met while selecting surfaces after
+exactly the values tried before it, never swallowed, never turned into "no match" -/
+theorem machine_has_is_definition_any_predicate (ss : List (Step J)) (hp : PredsClean ss.toArray)
+    (op : Option Fn) (fns : List Fn) (c : MNode J) :
+    IsInfra (has cxJ ss op fns c).res ∨ (has cxJ ss op fns c).res = (hasS ss op fns c).res :=
+  has_refines_x cxJ rfl rfl ss hp op fns c
 
 /-- … and outright, with the budget made explicit: if the nested search's definition needs
 fewer than `(budget - 3) / 6` examinations (and selects fewer values than the model's loop
